@@ -176,7 +176,7 @@ Init == /\ s = InitState /\ nitems = 0 /\ hi = {} /\ nconn = 0 /\ lastEv = <<"in
 
 \* a datapoint arrives from a receiver (isHi = FALSE) or from the daemon's own instrumentation
 Arrive(isHi) ==
-  /\ nitems < MaxItems
+  /\ nitems < MaxItems /\ ~s.stopped
   /\ nitems' = nitems + 1
   /\ hi' = IF isHi THEN hi \cup {nitems + 1} ELSE hi
   /\ s' = ArriveF(s, nitems + 1, isHi, <<>>)
